@@ -405,11 +405,10 @@ class PteraTransformer(NodeTransformer):
         if ann and isinstance(target, ast.Name):
             new_ann = self._evaluate(ann)
             old_ann = self.annotated.get(target.id, ABSENT)
-            if isinstance(old_ann, (Tag, TagSet)) and isinstance(
-                new_ann, (Tag, TagSet)
-            ):
+            if isinstance(new_ann, (Tag, TagSet)):
                 # Annotated more than once: the variable carries all the tags
-                new_ann = old_ann & new_ann
+                if isinstance(old_ann, (Tag, TagSet)):
+                    new_ann = old_ann & new_ann
             elif old_ann is not ABSENT:
                 new_ann = old_ann
             self.annotated[target.id] = new_ann
